@@ -101,3 +101,57 @@ def parse_facts(s):
         if m:
             out[m.group(1)] = (int(m.group(2)), int(m.group(3)))
     return out
+
+
+def emit_condition(j, P, s, ent, ob, prefix):
+    """path condition at the call of sigEncode in sign_internal: the four rejection quantities are
+    bounded by exactly the thresholds of FIPS 204 Alg. 7 lines 23 / 28 (needs the job options
+    probe=encodings::sig_encode and track_ret=helpers::infinity_norm|Iterator::sum)"""
+    k, l = P["k"], P["l"]
+    se = ret_probes(j, "encodings::sig_encode")
+    facts = {}
+    for p in se:
+        for kx, v in parse_facts(p["data"].get("facts")).items():
+            if kx in facts:
+                v = (min(v[0], facts[kx][0]), max(v[1], facts[kx][1]))
+            facts[kx] = v
+    norms = {kx: v for kx, v in facts.items() if kx.startswith("sign_internal: helpers::infinity_norm(")}
+    sums = {kx: v for kx, v in facts.items() if kx.startswith("sign_internal: ") and "Iterator::sum" in kx}
+    want = sorted([P["gamma1"] - P["beta"] - 1, P["gamma2"] - P["beta"] - 1, P["gamma2"] - 1])
+    okn = len(se) >= 1 and sorted(v[1] for v in norms.values()) == want and all(v[0] == 0 for v in norms.values())
+    if okn and k != l:
+        zf = [v for kx, v in norms.items() if kx.endswith("#%d)" % l)]
+        okn = len(zf) == 1 and zf[0][1] == P["gamma1"] - P["beta"] - 1
+    ob(okn, "%s:emit-norm-bounds:%s" % (prefix, ent), {"rule": "%s a signature is emitted only when ||z|| < gamma1-beta, ||r0|| < gamma2-beta, ||ct0|| < gamma2, with exactly these thresholds" % prefix,
+                                                       "entry": j["root"], "set": s, "path_condition_at_sigEncode": {kx: list(v) for kx, v in norms.items()}, "expected_upper_bounds": want})
+    oksum = len(sums) == 1 and list(sums.values())[0][1] == P["omega"]
+    ob(oksum, "%s:emit-hint-weight:%s" % (prefix, ent), {"rule": "%s a signature is emitted only when the hint has at most omega ones, with exactly this threshold" % prefix, "entry": j["root"], "set": s,
+                                                         "path_condition_at_sigEncode": {kx: list(v) for kx, v in sums.items()}, "omega": P["omega"]})
+    return norms, sums
+
+
+def accept_condition(j, P, s, ent, ob, prefix):
+    """path condition of the may-accept partition of verify_internal: ||z|| <= gamma1-beta-1 exactly
+    (needs probe=ml_dsa::verify_internal and track_ret=helpers::infinity_norm)"""
+    rp = ret_probes(j, "ml_dsa::verify_internal")
+    bound = None
+    seen = []
+    for p in rp:
+        for part in p["data"].get("ret_facts", "").split(" || "):
+            if " <= " not in part:
+                continue
+            val, fs = part.split(" <= ", 1)
+            seen.append(part[:200])
+            if val.strip() == "0":
+                continue
+            f = {kx: v for kx, v in parse_facts(fs).items() if kx.startswith("verify_internal: helpers::infinity_norm(")}
+            if len(f) == 1:
+                b = list(f.values())[0]
+                bound = b if bound is None else (min(bound[0], b[0]), max(bound[1], b[1]))
+            else:
+                bound = (0, None)
+    want = P["gamma1"] - P["beta"] - 1
+    ob(bound is not None and bound[1] == want and bound[0] == 0, "%s:accept-norm-bound:%s" % (prefix, ent),
+       {"rule": "%s verification can return true only when ||z|| < gamma1 - beta, and with exactly this threshold (so every ||z|| the signer emits is accepted)" % prefix,
+        "entry": j["root"], "set": s, "path_condition_of_accept_partition": seen[:4], "expected_upper_bound": want})
+    return bound
